@@ -13,6 +13,7 @@ import (
 	"verifharness/drv/c06"
 	"verifharness/drv/c07"
 	"verifharness/drv/c08"
+	"verifharness/drv/c10"
 	"verifharness/drv/c11"
 	"verifharness/drv/c12"
 	"verifharness/drv/c13"
@@ -83,6 +84,8 @@ func main() {
 		c13.Run(os.Args[2], os.Args[3])
 	case "c12":
 		c12.Run(os.Args[2], os.Args[3])
+	case "c10":
+		c10.Run(os.Args[2], os.Args[3])
 	case "c19x":
 		a := os.Args
 		c19.Explicit(a[2], a[3], atoi(a[4]), atoi(a[5]), atoi(a[6]), a[7] == "1")
